@@ -41,6 +41,34 @@ use veryl_simulator::Config;
 /// configuration keeps it off; flip it once those are triaged.
 pub const BIG_TIER: bool = false;
 
+/// Set by `run`: the quick tier uses the *core dialect* (see `core_dialect`).
+pub static QUICK: std::sync::atomic::AtomicBool = std::sync::atomic::AtomicBool::new(false);
+
+/// The quick tier's core dialect: the sub-language in which the unchanged tree
+/// is clean on every seed swept (the wide dialect — widths to 300, casts,
+/// `$signed`, fill literals, switch / case expressions, run-time part selects,
+/// `**` — hits a long tail of engine defects, see `vdesign::findings`, and is
+/// the THOROUGH tier's business).  C18/C02-local: `GenCfg::default()` is
+/// untouched.
+pub fn core_dialect(cfg: &mut GenCfg) {
+    cfg.max_width = 64;
+    cfg.sign_casts = false;
+    cfg.casts = false;
+    cfg.fill_lits = false;
+    cfg.switch_expr = false;
+    cfg.case_expr = false;
+    cfg.dyn_selects = false;
+    cfg.pow = false;
+    cfg.known_per_mille = 0;
+    for k in findings::NON_DEFAULT {
+        cfg.avoid.insert(k.to_string());
+    }
+}
+
+pub fn quick() -> bool {
+    QUICK.load(std::sync::atomic::Ordering::Relaxed)
+}
+
 pub struct Engines {
     pub fast: Vec<Config>,
     pub cc: Vec<Config>,
@@ -292,6 +320,9 @@ pub fn replay_recorded(p: &Value, eng: &Engines) -> Outcome {
 pub fn one_case(d: &mut Draw, eng: &Engines, single: bool, known_rate: u32) -> Outcome {
     let mut cfg = GenCfg::exprs_only();
     cfg.known_per_mille = known_rate;
+    if quick() {
+        core_dialect(&mut cfg);
+    }
     // C18-local bias (non-default generator flag): wrap shapes in `multi`
     // Bigger-tier knobs (see BIG_TIER): off in the verified configuration.
     if BIG_TIER {
@@ -489,6 +520,10 @@ pub fn discover(id: &str, o: Outcome) -> Outcome {
 
 pub fn run(ctx: &Ctx) {
     let eng = Engines::new();
+    QUICK.store(ctx.is_quick(), std::sync::atomic::Ordering::Relaxed);
+    if ctx.is_quick() {
+        ctx.assume("QUICK tier = core dialect: widths 1..64, no $signed/$unsigned, no `as` casts, no '0/'1, no switch/case expressions, no run-time part selects, no `**`, plus every known-defect shape of vdesign::findings replaced (counted as `excluded:*`); the wide dialect (widths to 300 and all of the above) is searched by the thorough tier, where the unchanged tree has many listed and unlisted engine defects");
+    }
     ctx.note("engines", json!(eng.all().iter().map(config_label).collect::<Vec<_>>()));
     ctx.run_payloads("recorded", |p| {
         // own thread: the analyzer state is thread-local
@@ -504,11 +539,11 @@ pub fn run(ctx: &Ctx) {
     // known shapes stay visible at a low rate in `single` only
     let envn = std::env::var("C18_CASES").ok().and_then(|s| s.parse::<usize>().ok());
     let only = std::env::var("C18_SUB").ok();
-    let n1 = envn.unwrap_or(ctx.scale(if BIG_TIER { 900 } else { 450 }, 40_000));
+    let n1 = envn.unwrap_or(ctx.scale(1800, if BIG_TIER { 40_000 } else { 20_000 }));
     if only.as_deref() != Some("multi") {
         ctx.run("single", CaseCfg::cases(n1).choices(3000), |d| discover("C18", one_case(d, &eng, true, 10)));
     }
-    let n2 = envn.unwrap_or(ctx.scale(if BIG_TIER { 1500 } else { 450 }, 40_000));
+    let n2 = envn.unwrap_or(ctx.scale(1800, if BIG_TIER { 40_000 } else { 20_000 }));
     if only.as_deref() != Some("single") {
         ctx.run("multi", CaseCfg::cases(n2).choices(4000), |d| discover("C18", one_case(d, &eng, false, 0)));
     }
